@@ -3,6 +3,7 @@ from . import rec
 from . import gen
 from . import mig
 from . import mw
+from . import iso
 
 
 def _c13(res):
@@ -78,6 +79,7 @@ def _gen_prop(pid):
 
 TABLE = {
     **{pid: {"run": _gen_prop(pid), "replay": gen.replay, "level": "proof"} for pid in GEN},
+    "C14": {"run": iso.run, "replay": iso.replay, "level": "proof"},
     "C20": {"run": mw.run, "replay": mw.replay, "level": "proof"},
     "C18": {"run": mig.run, "replay": mig.replay, "level": "proof"},
     "C11": {"run": _c11, "replay": rec.replay, "level": "proof"},
